@@ -42,7 +42,7 @@ THEORIES = ["Base", "Metrics", "MetricsProofs", "C19Check", "RandomPrims", "Rand
 def gen(ctx):
     """(T) regenerate gen/GenCode.v from the metric bodies in the working tree; fail closed"""
     import translate_code as TC
-    TC.ensure(TC.C07_FUNCS + ["accuracy_score", "recall_score", "precision_score"])
+    TC.ensure(TC.C07_FUNCS + ["accuracy_score", "recall_score", "precision_score", "f1_score", "confusion_matrix"])
 
 
 IMPORTS = "From TF Require Import Base Metrics C19Check.\nFrom Coq Require Import Floats."
